@@ -555,7 +555,16 @@ def batch_pure(max_n, lo, hi, seed):
     res = {'instances': 0, 'nontrivial': 0, 'violations': [], 'native_runs': 0, 'set_constructs_rewritten': set_constructs()}
     for shape in R.shapes(max_n)[lo:hi]:
         allc = list(R.all_cards(shape))
-        for cards in (allc if len(allc) <= 8 else rnd.sample(allc, 8)):
+        pick = (allc if len(allc) <= 8 else rnd.sample(allc, 8))
+        # an unbounded upper bound ([a..*], stored as -1) on each group in turn, and bounds above the number of members
+        rels_ = R.relations_of(shape)
+        for ri, (_, cs) in enumerate(rels_):
+            if len(cs) > 1 and allc:
+                for mn, mx in ((1, -1), (0, -1), (len(cs), -1), (1, len(cs) + 2)):
+                    c2 = list(rnd.choice(allc))
+                    c2[ri] = (mn, mx)
+                    pick = pick + [c2]
+        for cards in pick:
             for wi in range(len(WRITERS)):
                 res['instances'] += 1
                 res['native_runs'] += 3
@@ -578,7 +587,7 @@ def conditions(tier, seed):
     for si, shape in indexed_shapes(N, 2):
         n = R.n_features(shape)
         imp = imp0 + 'SHAPE_%d = %r\n' % (si, shape)
-        cp, cpre, cexpr = cards_params(shape)
+        cp, cpre, cexpr = cards_params(shape, star=True)          # upper bound -1 = '*'
         dc = tuple(x for c in R.default_cards(shape) for x in c)
         for wi, (label, _) in enumerate(WRITERS):
             if tier == 'quick' and (wi + si) % 4 != 0:
